@@ -247,7 +247,35 @@ pub fn scanindex(data: &[u8]) -> Progress {
             let _ = e.to_string();
         }
     }
+    // the same bytes through a reader that, from some offset on, fails on every call: the error
+    // must come back (promptly), however often the reader would go on failing
+    if let Some(first) = data.first() {
+        let limit = (*first as usize * data.len()) / 256;
+        let r = ScanIndex::from_reader(std::io::BufReader::with_capacity(16, FailingForever(data, limit)));
+        if let Err(e) = r {
+            let _ = e.to_string();
+        }
+    }
     pr
+}
+
+/// delivers the first `.1` bytes of `.0`, then fails on every call, for ever
+struct FailingForever<'a>(&'a [u8], usize);
+impl Read for FailingForever<'_> {
+    fn read(&mut self, buf: &mut [u8]) -> std::io::Result<usize> {
+        if self.1 == 0 {
+            return Err(std::io::Error::new(std::io::ErrorKind::Other, "persistent read failure"));
+        }
+        let n = self.1.min(buf.len()).min(self.0.len()).min(7);
+        if n == 0 {
+            self.1 = 0;
+            return Err(std::io::Error::new(std::io::ErrorKind::Other, "persistent read failure"));
+        }
+        buf[..n].copy_from_slice(&self.0[..n]);
+        self.0 = &self.0[n..];
+        self.1 -= n;
+        Ok(n)
+    }
 }
 
 struct Chunked<'a>(&'a [u8], usize);
@@ -279,6 +307,8 @@ pub fn digest(data: &[u8]) -> Progress {
         }
     };
     for d in algs {
+        let _ = d.hash_file(&mut FailingForever(body, body.len() / 2));
+        let _ = d.hash_patch(&mut FailingForever(body, body.len() / 2));
         let _ = d.hash_file(&mut Chunked(body, chunk));
         let _ = d.hash_patch(&mut Chunked(body, chunk));
         if let Ok(s) = std::str::from_utf8(body) {
